@@ -227,7 +227,7 @@ Proof.
   { rewrite Htoks, EB. assert (H1 : Forall (fun xk => labs_shape (fst xk) /\ (1 <= snd xk)%nat) es1) by exact Hshk1.
     rewrite (doc_plines_toks lead es1 H1). rewrite <- !app_assoc. reflexivity. }
   rewrite Et.
-  apply (flat_block_unrolls cfg (doc_plines lead es1) forw count (flat_map elem_blines bodyEs) rofw skip (body es2) syms (Z.of_nat (S n)));
+  apply (flat_block_unrolls cfg 0%nat _ (doc_plines lead es1) forw count (flat_map elem_blines bodyEs) rofw skip (body es2) syms (Z.of_nat (S n)));
     try assumption.
   - apply Hev. exact Hfront.
   - apply body_nonterm. exact Hok2.
@@ -290,7 +290,7 @@ Proof.
                       ++ lbl_seg cls ++ rofw :: skip ++ (nlt :: body es2 ++ [tEOF])).
   { rewrite Htoks. rewrite (doc_plines_toks lead es1 Hshk1). rewrite <- !app_assoc. reflexivity. }
   rewrite Et.
-  apply (zero_block_unrolls cfg (doc_plines lead es1) forw count blk cls rofw skip (body es2) syms v d_at content'); try assumption.
+  apply (zero_block_unrolls cfg 0%nat _ (doc_plines lead es1) forw count blk cls rofw skip (body es2) syms v d_at content'); try assumption.
   - apply Hev. exact Hfront.
   - apply body_nonterm. exact Hok2.
 Qed.
@@ -452,7 +452,7 @@ Proof.
                       ++ rofw :: skip ++ (nlt :: body es2 ++ [tEOF])).
   { rewrite Htoks, EB. rewrite (doc_plines_toks lead es1 Hshk1). rewrite <- !app_assoc. reflexivity. }
   rewrite Et.
-  apply (counter_block_unrolls cfg (doc_plines lead es1) c forw count (flat_map elem_blines bodyEs) rofw skip (body es2) syms (Z.of_nat (S n)));
+  apply (counter_block_unrolls cfg 0%nat _ (doc_plines lead es1) c forw count (flat_map elem_blines bodyEs) rofw skip (body es2) syms (Z.of_nat (S n)));
     try assumption.
   - apply Hev. exact Hfront.
   - apply body_nonterm. exact Hok2.
